@@ -169,6 +169,11 @@ def extract(tree):
     ct = corefn_body(src, "cfun_channel_pop")
     _need(_ws("if (janet_channel_pop(channel, &item, 0)) { janet_schedule(janet_vm.root_fiber, item); } janet_await();"), ct, "ev/take")
 
+    # ---- ev/count, ev/full, ev/capacity
+    _need(_ws("Janet ret = janet_wrap_integer(janet_q_count(&channel->items));"), corefn_body(src, "cfun_channel_count"), "ev/count")
+    _need(_ws("Janet ret = janet_wrap_boolean(janet_q_count(&channel->items) >= channel->limit);"), corefn_body(src, "cfun_channel_full"), "ev/full")
+    _need(_ws("Janet ret = janet_wrap_integer(channel->limit);"), corefn_body(src, "cfun_channel_capacity"), "ev/capacity")
+
     # ---- select
     ch = corefn_body(src, "cfun_channel_choice")
     loops = [m.start() for m in re.finditer(r"for\s*\(\s*int32_t\s+i\s*=\s*0\s*;\s*i\s*<\s*argc\s*;\s*i\+\+\s*\)", ch)]
